@@ -208,7 +208,7 @@ SE2Base<_Derived>::inverse(OptJacobianRef J_minv_m) const
 
   return LieGroup(-x()*real() - y()*imag(),
                    x()*imag() - y()*real(),
-                           -angle()        );
+                   real(), -imag()         );
 }
 
 template <typename _Derived>
